@@ -159,3 +159,33 @@ func H_SecrecyBody() {
 	}
 	vf.Assert(!leak(buf.String(), secret), "rendered-diagnostic-leaks-secret: "+sb.src)
 }
+
+// H_SecrecyGen (C19): grammar-generated expressions (c07gen.go: mostly ill-typed, so
+// most of them fail) with the marked secret as s; no diagnostic may contain it.
+func H_SecrecyGen() {
+	g := &dgen{leaves: []string{"s", "x", "l"}, deepLeft: vf.Param("deep", 1)}
+	src := g.expr(vf.Param("depth", 2))
+	vf.Assume(strings.Contains(src, "s"))
+	vf.Observe("src", src)
+	e := parse(src)
+	// one symbolic byte (four values) after a fixed prefix: the expression, not the content, is what varies here
+	last := vf.Str(1)
+	vf.Assume(last[0] == 'J' || last[0] == 'Q' || last[0] == 'X' || last[0] == 'Z')
+	secret := "JQX" + last
+	ctx := scopeX(cty.StringVal(secret).Mark("sensitive"))
+	_, diags := e.Value(ctx)
+	if !diags.HasErrors() {
+		vf.Reach("no-error")
+		return
+	}
+	vf.Reach("error")
+	for _, d := range diags {
+		vf.Assert(!leak(d.Summary, secret) && !leak(d.Detail, secret), "diagnostic-leaks-secret")
+	}
+	var buf bytes.Buffer
+	w := hcl.NewDiagnosticTextWriter(&buf, map[string]*hcl.File{"e.hcl": {Bytes: []byte(src)}}, 78, false)
+	_ = w.WriteDiagnostics(diags)
+	// finding of record: iteration variables of a 'for' over a collection that carries the mark as a whole
+	forIter := strings.Contains(src, "for") && strings.Contains(src, "{(")
+	vf.AssertKnown(!leak(buf.String(), secret), "rendered-diagnostic-leaks-secret", "C19-for-iteration-variables", forIter)
+}
